@@ -342,10 +342,7 @@ func evalCase(c *om.Case, vs []variant) (ms []mismatch, info evalInfo) {
 			f := &c.Funcs[c.Calls[k].F]
 			kind, what := om.CompareCall(f, info.wz.Calls[k], res[k])
 			if kind != "" {
-				key := fmt.Sprintf("op=%s/%s", f.Op, c.Calls[k].Class)
-				if cl := c.Calls[k].Class; cl == "oob" || cl == "beyond-initial-size" {
-					key = "op=memory/oob" // one root cause: no bounds check on any memory access
-				}
+				key := keyCfg.Key(f.Op, c.Calls[k].Class)
 				ms = append(ms, mismatch{k, v.Name, key, fmt.Sprintf("%s: wazero vs C(%s): %s: %s", om.Describe(c, k), v.Name, kind, what)})
 				if f.Stateful || kind == "memory" {
 					break
@@ -389,6 +386,8 @@ func compileKey(msg string) string {
 	}
 	return m
 }
+
+var keyCfg = &om.Config{}
 
 func exclusion() (*om.Exclusion, *om.Config) {
 	ex := om.NewExclusion(prop)
